@@ -505,6 +505,68 @@ PROPS["C04"] = {
         "assumptions": [],
     }
 
+PROPS["C11"] = {
+    "module": "Rl.Props.C11",
+    "targets": [{"name": "sess", "gen": "sess", "header_tokens": 3},
+                {"name": "sessx", "gen": "sessx", "header_tokens": 6}],
+    "shards": {"quick": 16, "thorough": 16},
+    "trivial_impl_regex": r"",
+    "rule": "sess: ONE process, k FileHistory objects on one real temporary file that exists before the sessions start; the request is "
+            "the interleaved program (l<i> load, a<i>:<text> add, p<i> append, s<i> save, m<k> set the file's mtime back to the k-th "
+            "distinct mtime seen so far, d dump). After every append/save the observation holds the status, the index of the file's "
+            "mtime among the distinct mtimes seen, the raw bytes and the entries a fresh FileHistory (limit 10^6, no ignore rules) "
+            "loads from it; d adds every session's iter(). The model is driven with the observed mtime indices. "
+            "Exhaustive: every interleaving of two session programs load;(add|append|save)* of <=4 steps in which every "
+            "append/save has something new (10 programs; thorough: all 40 programs) x 144 variants (limits (1,1),(2,2),(3,3),(1,3),(3,2),(2,1) "
+            "x ignore-dups off/on x distinct lines / the same line every time x 0,1,2 initial entries x natural mtimes / mtime frozen "
+            "at the initial value after every write); quick runs 6 of the 144 variants per interleaving in rotation, thorough 36. "
+            "Every interleaving of three programs of <=3 steps x 80 variants (quick 2 per interleaving in rotation, thorough 20), thorough "
+            "also 200000 random interleavings of three programs of <=4 steps. Random: 6000 (thorough 150000) programs of 2-4 sessions, "
+            "4-24 (4-40) ops, limits 1..8, shared ignore-space, per-session ignore-dups, loads in the middle, lines with line feed / "
+            "backslash / carriage return / leading blank / empty, saves, mtime resets, 1 in 12 with no file at the start. "
+            "sessx (property oracle only, no model): 2-4 real threads (t/T) or child processes (p/P) each load, then 10-30 (thorough "
+            "20-100) times add a fresh line of varying length and append to one file under fd-lock while the main thread keeps loading "
+            "it; limit never reached (1000) or small (1,2,3,7); T/P: worker 0 has limit 1 so its appends take the save shortcut (the D14 "
+            "window). 16 runs quick, 400 thorough. distinct = hash of the request.",
+    "exhaustive": {"quick": True, "thorough": True},
+    "trusted_base": HF_TB + [
+        "file system: one path; a write is whole-file replacement / concatenation with a modification time handed out by the "
+        "environment (any number; the harness reports the observed mtime as an index into the distinct values seen); flock makes each "
+        "public call one step (operation-atomic model) - that real threads/processes respect this is exercised by target sessx "
+        "(property oracle only), not proved",
+        "on this kernel (multigrain timestamps) every write that follows a stat gets a new mtime, so 'indistinguishable mtimes' "
+        "are produced by File::set_modified back to an earlier observed value (model: Op.touch)",
+        "the sub-operation model (SubSys: File::create / path.exists() before the lock) is not tied to the code by a "
+        "differential run (no hook); D14 was confirmed on the real code by sessx before the repair",
+        "the read-back history uses limit 10^6 on both sides (Rl.Drv.FileSession.bigMax)"],
+    "unproved": ["C11_no_loss_counting_statement: the counting form of 'limit not exceeded' (|initial| + number of adds <= max, distinct "
+                 "lines) implies the per-append form C11_fitsRun under which C11_no_loss is proved",
+                 "C11_subop_refines_statement: for the repaired code every sub-operation run reaches only states of the "
+                 "operation-atomic system (proved instead: the D14 schedule is a counter-example before the repair and harmless after it)"],
+    "level_text": "Unbounded Lean theorems about a labelled transition system of ANY number of FileHistory sessions (each with its own limit "
+                  "and ignore settings) on one file, over every interleaving of load/add/append/save and every modification time the "
+                  "environment may hand out: the file is always a file save_to wrote and always loads (C11_always_loads); an append with new "
+                  "lines leaves exactly one of the three shapes of the spec - old ++ new, the store's acceptance/size rule folded over old ++ new, "
+                  "or the new lines alone when they fill the limit (C11_append_shape); while old ++ new fits the session's store the file "
+                  "is exactly old ++ new on every path, and along whole traces the file equals a ghost list that only grows at the end "
+                  "(C11_append_keeps, C11_no_loss); after a write the session has nothing unwritten and a second append writes nothing "
+                  "whatever the others did in between (C11_write_resets, C11_no_double); with distinguishable modification times and loads "
+                  "at start the file never exceeds the appending session's limit (C11_bound), and a load into a non-empty history breaks that "
+                  "(C11_bound_needs_load_at_start). Sub-operation model: D14 (save truncated before taking the lock) is an explicit "
+                  "counter-example schedule for the old code and harmless for the repaired code. The atomic model is tied to /repo by "
+                  "exhaustive + random interleavings on real files; real concurrency is exercised by threads and processes with the "
+                  "property oracle only.",
+    "level_note": "Trusted: Lean kernel; harness/diff; atoms/UTF-8 as in C10; the file-system abstraction (whole-file writes, mtime as an "
+                  "environment input, flock = one step per call). True concurrency (threads, processes) is exercised, not proved. "
+                  "Partial: the counting form of no-loss and the refinement sub-operation => atomic for the repaired code are stated, not proved. "
+                  "Sessions are assumed to share ignore-space when they share a file (a session with ignore-space drops blank-led lines "
+                  "another session wrote when it rewrites the file).",
+    "assumptions": ["the file exists before the sessions start (property quantifier); two sessions that both find it missing can lose a "
+                    "line (C11_subop_missing_file_race)",
+                    "sessions load at start (a load into a non-empty history records a wrong size: C11_bound_needs_load_at_start)",
+                    "save overwrites by design (DESIGN 7.1): the no-loss clause is about load/add/append traces"],
+}
+
 # properties not (yet) claimed, with the reason (kept current; see DESIGN.md)
 NOT_APPLICABLE = {
 }
